@@ -3,15 +3,24 @@ Spec: GleamGen.tla - a pushdown generator whose state is Gleam's scope stack; ev
 the declaration it is bound to by construction.  MC: the operational scope stack agrees with the declarative
 restatement of the scoping rule (ScopeDeclarative), pending binders are invisible in their own initialiser.
 GEN: every program (BFS small budget + simulation) is loaded into a real AnalysisHost and goto_definition is
-compared with the specification's target at every identifier occurrence."""
+compared with the specification's target at every identifier occurrence.
+Workspace: the program m1 is the module of package `app`; the library modules m2 and sub/m2 (same last path segment, same
+declared names, own declaration ids 2001.. / 3001..) belong to a second local package `lib` that `app` depends on (one
+workspace in four: a single package).  Module headers have up to two imports - both modules, plain or `as`, both orders,
+unqualified items from either; `acc.x`, `acc.A(..)`, the pattern `acc.A(..)` and the annotation `acc.T` must land in the
+module the accessor stands for (last path segment unless aliased)."""
 from checks import scope_common
 
 
 def run(out, tier, seed):
     scope_common.run_gen_check(out, tier, seed, "C05", ["clause_guard", "unary"])
     out.cov["exhaustive"] = True
-    out.cov["rule"] = ("all programs GleamGen derives with the BFS budget (every import form x every production once in every slot, "
-                       "names from a pool of two so shadowing is the norm) plus seeded simulation with budget 7 and up to 3 items; "
+    out.cov["rule"] = ("all programs GleamGen derives with the BFS budget: b1 = every production once in every slot under the base headers "
+                       "(no import, m2 plain / `as q` / .{c} / .{A}, sub/m2), b1h = the import-sensitive productions (references to imported names, "
+                       "qualified names / constructors / labels through every accessor, type annotations) under EVERY header with up to two imports "
+                       "of m2 and sub/m2 ({plain, as} x both orders x at most one unqualified item: 91 headers); names from a pool of two so "
+                       "shadowing is the norm; plus seeded simulation with budget 7, up to 3 items and all 211 headers; workspaces with two local "
+                       "packages (app -> lib), one in four with a single package; "
                        "each rendered with seeded whitespace/comments; goto_definition at every identifier occurrence compared with the "
                        "spec's binding (local binder / top-level item / library export / module / unbound); "
                        "distinct_nontrivial = programs in which some name is bound more than once (shadowing)")
